@@ -53,7 +53,7 @@ def plan(tier, seed):
 def mandatory(tier):
     return [
         "route/origin", "route/center", "dir/identity", "dir/perm", "dir/rot", "D/2", "D/3",
-        "from_sitk", "image_sitk", "from_file", "index_outside", "index_inside", "grid_attrs", "grid_attrs/interpolate",
+        "from_sitk", "image_sitk", "from_file", "index_outside", "index_inside", "grid_attrs", "grid_attrs/interpolate", "attribute_history",
         "file_route/.mha", "file_route/.nii.gz", "file_route/.nrrd", "file_route/.mhd",
     ]
 
@@ -125,6 +125,53 @@ def run_item(ctx, item):
             ctx.close("unit_steps_vs_itk", steps, itk_steps, K * eps * (np.abs(np.asarray(origin)) + np.abs(ref.A).sum(axis=1) * 2) + 1e-12, **info)
             ctx.close("unit_steps_are_direction_columns", itk_steps, (direction * np.asarray(spacing)).T, 1e-9 * (1 + np.abs(np.asarray(spacing)).max()), **info)
 
+    # --- attributes changed after the grid was used (history): the maps follow the attributes the grid reports, and ITK
+    #     agrees for an image with those attributes; attribute tensors handed in by the caller stay the caller's
+    with ctx.guard("Grid attribute history", key="exc/attribute_history", params=p):
+        ctx.bucket("attribute_history")
+        g0 = grids.get("origin")
+        if g0 is not None:
+            g0.index_to_world(torch.tensor(idx, dtype=torch.float64))  # the map was evaluated before the change
+            R2, _k = gen.rand_direction(rng, D)
+            R2 = gen.f32(R2)
+            s2 = gen.f32(np.asarray(spacing) * rng.uniform(0.5, 2.0, size=D))
+            for how in ("copy", "in_place"):
+                g = g0.clone()
+                g.index_to_world(torch.tensor(idx, dtype=torch.float64))
+                g.origin()
+                if how == "copy":
+                    g = g.spacing(torch.tensor(s2, dtype=torch.float32))
+                    g.origin()
+                    g = g.direction(torch.tensor(R2, dtype=torch.float32))  # the direction is the last thing to change
+                else:
+                    g.spacing_(torch.tensor(s2, dtype=torch.float32))
+                    g.index_to_world(torch.tensor(idx, dtype=torch.float64))
+                    g.direction_(torch.tensor(R2, dtype=torch.float32))
+                img2 = sitk.Image([int(n_) for n_ in size], sitk.sitkFloat32)
+                img2.SetSpacing([float(x) for x in s2])
+                img2.SetDirection([float(x) for x in R2.flatten()])
+                img2.SetOrigin([float(x) for x in g.origin().double().numpy()])  # ITK keeps the origin the grid reports ...
+                phys2 = np.array([img2.TransformContinuousIndexToPhysicalPoint([float(c) for c in row]) for row in idx])
+                ref2 = RefGrid(size, s2, R2, origin=g.origin().double().numpy())
+                wtol2 = ref2.tol(np.abs(idx), GRID, WORLD, eps=eps, k=K) + 1e-9
+                ctx.close("index_to_world_after_attribute_change_vs_itk", g.index_to_world(torch.tensor(idx, dtype=torch.float64)), phys2, wtol2, key=f"attribute_history/{how}", how=how)
+                # ... and the centre did not move when direction and spacing changed (it is what the grid stores)
+                ctx.close("center_kept_by_direction_and_spacing_change", g.center(), g0.center().double().numpy(), wtol2.max(axis=0), key=f"attribute_history/{how}", how=how)
+                mid = np.array(img2.TransformContinuousIndexToPhysicalPoint([float((k_ - 1) / 2) for k_ in size]))
+                ctx.close("center_is_itk_mid_index_after_attribute_change", g.center(), mid, wtol2.max(axis=0) * 2, key=f"attribute_history/{how}", how=how)
+            # caller-owned float32 tensors given as attributes are not modified, and can be used again
+            o_t = torch.tensor(origin, dtype=torch.float32)
+            c_t = torch.tensor(itk_center, dtype=torch.float32)
+            s_t = torch.tensor(spacing, dtype=torch.float32)
+            d_t = torch.tensor(direction, dtype=torch.float32)
+            keep = [t_.clone() for t_ in (o_t, c_t, s_t, d_t)]
+            ga = Grid(size=tuple(size), origin=o_t, spacing=s_t, direction=d_t)
+            gb = Grid(size=tuple(size), origin=o_t, spacing=s_t, direction=d_t)
+            gc = Grid(size=tuple(size), center=c_t, spacing=s_t, direction=d_t)
+            ctx.true("attribute_tensors_of_the_caller_unchanged", all(bool(torch.equal(a_, b_)) for a_, b_ in zip((o_t, c_t, s_t, d_t), keep)), key="attribute_history/caller_tensors")
+            ctx.close("second_grid_from_same_tensors_vs_itk", gb.index_to_world(torch.tensor(idx, dtype=torch.float64)), phys, wtol, key="attribute_history/caller_tensors")
+            ctx.close("first_grid_from_same_tensors_vs_itk", ga.index_to_world(torch.tensor(idx, dtype=torch.float64)), phys, wtol, key="attribute_history/caller_tensors")
+            ctx.close("center_route_from_tensors_vs_itk", gc.index_to_world(torch.tensor(idx, dtype=torch.float64)), phys, wtol * 2, key="attribute_history/caller_tensors")
     # --- header conversion: sitk -> Grid
     with ctx.guard("Grid.from_sitk"):
         ctx.bucket("from_sitk")
